@@ -53,6 +53,13 @@ def gen(ctx):
     return cases
 
 
+MANIFEST = {
+ "level": 'proof',
+ "text": "All ten statements of the property (round trip on the whole 56-bit range, shortest encoding, exact consumption, injectivity per length, strict = image of the encoder, lenient = two's-complement value, no panic, 0xff rejected) are proved for every value/byte string about the Gallina model of varint.rs; the model is run against the implementation on all 1- and 2-byte inputs and structured/random longer ones.",
+ "note": vlib.NOTE_COMMON + '',
+ "technique": 'Coq proof (8 size classes, lia with div/mod, finite byte sweeps by vm_compute) + model/implementation differential run',
+}
+
 def run(ctx):
     ctx.rule = ("complete enumeration of all 1- and 2-byte inputs in strict and lenient mode; structured 1..10-byte "
                 "encodings (all 8 prefix classes + 0xff, sign-extension fill, truncation); encoder on every size-class "
